@@ -30,7 +30,7 @@ def load_contracts():
 
 
 def resolve_target(I, target):
-    path, qual = target.split("::")
+    path, qual = target.split("#")[0].split("::")
     mod = I.src.module_by_path(path)
     parts = qual.split(".")
     ok, v = I.mod_global(mod, parts[0])
@@ -74,7 +74,7 @@ def run_job(target, case, opts=None):
             out["undecided"].append(f"more than {MAX_PATHS} paths")
             break
         ctx = Ctx(dec)
-        I = Interp(src, ctx, reg, root=target)
+        I = Interp(src, ctx, reg, root=target.split("#")[0])
         spec.CUR = I
         I.root_contract = ctr
         path_obs_start = 0
